@@ -459,3 +459,8 @@ def simplify(case):
             c = copy.deepcopy(case)
             c[key] = val
             yield c
+
+
+def WARMUP_SKIP(case):
+    """Parent-process warm-up runs only the cheap cases."""
+    return (case["mode"] == "sweep" and case["n"] > 400) or (case["mode"] == "sdeint" and case["steps"] > 200)
